@@ -267,7 +267,7 @@ def main(ctx):
     S = ctx.seed
     cells = []
     for n in (1, 2, 3):
-        for alpha in (-1, 0.1, 0.5, 1.0):
+        for alpha in (-1, 0.1, 0.5, 1.0, 0.0, 0):   # 0 = an agent frozen on its initial estimates (a constant learning rate like any other)
             for eps in (0.0, 0.3, 1.0):
                 for init in (0.0, 1.0, 0, 1):  # python ints are legitimate initial values too
                     for seed in (S, S + 1):
@@ -280,9 +280,14 @@ def main(ctx):
     L = 5 if ctx.quick else 6
     for b in (3.0, 1.0, 2.0, 1e-9, 1e9):
         cells.append({"kind": "env", "values": vals, "length": L, "boots": [b]})
+    # scale corners: a nearly converged calibration (losses around 1e-13), negative losses (e.g. a log-likelihood), a change of sign
+    for b in (8e-13, 3e-13):
+        cells.append({"kind": "env", "values": [4e-13, 2e-13, 1e-13, 3e-13, 5e-14], "length": L - 1, "boots": [b]})
+    for b in (-0.5, 1.0, -3.5):
+        cells.append({"kind": "env", "values": [-1.0, -2.0, -0.5, -4.0, 0.25], "length": L - 1, "boots": [b]})
     cells.sort(key=lambda c: 0 if c["kind"] == "env" else -((1 + 3 * c["cfg"]["n"]) ** c["depth"]))
-    ctx.bounds = {"agent": "n_actions 1..3, alpha {-1,.1,.5,1}, eps {0,.3,1}, init {0,1}, seeds {S,S+1}; events policy|learn(a,r in {0,.25,1}); depth by n",
-                  "env": f"bootstrap in {{3,1,2,1e-9,1e9}}, all sequences over {vals} up to length {L}, via get_reward and via step"}
+    ctx.bounds = {"agent": "n_actions 1..3, alpha {-1,0,.1,.5,1}, eps {0,.3,1}, init {0,1}, seeds {S,S+1}; events policy|learn(a,r in {0,.25,1}); depth by n",
+                  "env": f"bootstrap in {{3,1,2,1e-9,1e9}}, all sequences over {vals} up to length {L}, via get_reward and via step; losses around 1e-13 and negative losses up to length {L - 1}"}
     ctx.rule = "every event sequence up to the depth bound (agent) / every loss sequence up to the length bound (env); non-trivial = learn events / sequences mixing improvement and stall"
     ctx.assumptions = ["reference update rule written from the property text; tolerance 1e-12 on the updated estimate, exact equality on untouched ones"]
     ctx.pmap("vf.checks.c19:run_cell", cells)
